@@ -247,6 +247,17 @@ def correspondence(rng, tier):
                         'case_sniff %s %s' % (G.cstring(wtext), cbool(wpath == 'current'))]))
     gmeta.append([{'check': 'witness of C09_sniff_refuted: model document/text = implementation'},
                   {'check': 'witness of C09_sniff_refuted: decoder chosen', 'path': wpath, 'outcome': str(wobs)[:100]}])
+    # tags that are words of the storage formats (every one of them, as real / complex / intermediate entries)
+    for kind in ('real', 'complex', 'interm'):
+        r, rar, rtags = check_reserved(kind)
+        dist['reserved_tags_' + kind] = len(rtags); steps += 4
+        if r is not None and not is_known(dict(r, format='reserved')):
+            mism.append(dict(r, kind='reserved-tags', format='reserved', options={'kind': kind}))
+        rdoc = json.loads(P.dumps_json(rar))
+        groups.append(('Definition A : farchive F := %s.\nDefinition D : json F := %s.' % (G.abstract_archive(rar), G.cjson(rdoc)),
+                       ['case_encode A D', 'case_valid D %s' % cbool(V['json'].is_valid(rdoc))]))
+        gmeta.append([{'check': 'model encoder = document written (reserved-word tags, %s)' % kind},
+                      {'check': 'model validator = jsonschema (reserved-word tags, %s)' % kind}])
     xm = xml_correspondence(rng, tier, dist, samples)
     mism += xm['mismatches']; steps += xm['steps']
     groups += xm['groups']; gmeta += xm['gmeta']
@@ -286,17 +297,61 @@ def find_patterns(s):
     elif isinstance(s, list):
         for v in s: yield from find_patterns(v)
 
+def check_reserved(kind, ctx=7):
+    """archives whose tags are the words of the storage formats themselves: every document must validate and read
+    back with the original content, in both formats.  -> (failure dict or None, archive, tags)"""
+    from GTC import persistence as P
+    from lxml import etree
+    V = validators()
+    ar, tags, items = G.reserved_archive(kind, ctx)
+    orig = observe_objs(items)
+    for fmt, kw in (('json', {}), ('json', {'sort_keys': True, 'indent': 1}), ('xml', {}), ('xml', {'prefix': 'gtc', 'indent': 2})):
+        where = {'reserved_kind': kind, 'written_as': fmt, 'kw': kw}
+        try:
+            out = P.dumps_json(ar, **kw) if fmt == 'json' else P.dumps_xml(ar, **kw)
+        except Exception as ex:
+            return dict(where, why='dump-raised', detail='%s: %s' % (type(ex).__name__, str(ex)[:150])), ar, tags
+        if fmt == 'json':
+            doc = json.loads(out)
+            if not V['json'].is_valid(doc):
+                return dict(where, why='schema', errors=[e.message[:200] for e in V['json'].iter_errors(doc)][:3]), ar, tags
+            _, obs = load_json_observed(out, tags, 903)
+        else:
+            if not V['xsd'].validate(etree.fromstring(out)):
+                return dict(where, why='schema', detail=str(V['xsd'].error_log)[:300]), ar, tags
+            obs = load_xml_observed(out, tags, 903)
+        if isinstance(obs, str):
+            return dict(where, why='reload', outcome=obs), ar, tags
+        if obs != orig:
+            bad = sorted(k for k in orig if obs.get(k) != orig[k])[:5]
+            return dict(where, why='reload', outcome='content differs at %s' % bad), ar, tags
+    return None, ar, tags
+
 def xml_bytes(out):
     """what dumps_xml returned, as bytes a parser can be given"""
     if isinstance(out, bytes): return out
     m = re.match(r"<\?xml[^>]*encoding=['\"]([A-Za-z0-9._-]+)['\"]", out)
     return out.encode(m.group(1) if m else 'utf-8', 'xmlcharrefreplace')
 
-def load_xml_observed(out, tags, k):
+def load_xml_observed(out, tags, k, how='loads'):
+    """read an XML document back: 'loads' = loads_xml on what dumps_xml returned (bytes or str),
+    'file' = load_xml on a file object holding it, 'name' = load_xml on a file name"""
     from GTC import persistence as P
     new_context(k)
     try:
-        return observe(P.loads_xml(out), tags)
+        if how == 'loads':
+            ar2 = P.loads_xml(out)
+        elif how == 'file':
+            ar2 = P.load_xml(io.BytesIO(out) if isinstance(out, bytes) else io.StringIO(out))
+        else:
+            path = os.path.join(BUILD, 'c09_%d.xml' % os.getpid())
+            with open(path, 'wb') as f:
+                f.write(xml_bytes(out))
+            try:
+                ar2 = P.load_xml(path)
+            finally:
+                os.remove(path)
+        return observe(ar2, tags)
     except Exception as ex:
         return 'EXN ' + type(ex).__name__
 
@@ -315,9 +370,17 @@ def xml_check_cell(ar, tags, o, base_obs, k):
         return {'why': 'not-well-formed', 'detail': str(ex)[:150]}
     if not V['xsd'].validate(doc):
         return {'why': 'schema', 'detail': str(V['xsd'].error_log)[:300]}
-    obs = load_xml_observed(out, tags, k)
-    if isinstance(obs, str) or obs != base_obs:
-        return {'why': 'reload', 'outcome': str(obs)[:200]}
+    try:
+        f = io.StringIO() if isinstance(out, str) else io.BytesIO()
+        P.dump_xml(f, ar, **G.xml_kwargs(o))
+        if f.getvalue() != out:
+            return {'why': 'dump_xml-differs-from-dumps_xml'}
+    except Exception as ex:
+        return {'why': 'dump-raised', 'detail': 'dump_xml %s: %s' % (type(ex).__name__, str(ex)[:150])}
+    for how in ('loads', 'file', 'name'):
+        obs = load_xml_observed(out, tags, k, how)
+        if isinstance(obs, str) or obs != base_obs:
+            return {'why': 'reload', 'loader': how, 'outcome': str(obs)[:200]}
     return None
 
 def write_sequence(ar, tags, order, orig_obs, k, refs):
@@ -397,10 +460,13 @@ def xml_correspondence(rng, tier, dist, samples):
     ncell = len(G.XML_GRID)
     for ai in range(n_arch):
         ctx = rng.choice([7, 11, rng.getrandbits(127) + 1]); aseed = rng.getrandbits(48)
-        ar, desc, items = G.build_archive(random.Random(aseed), ctx, labels=G.XML_SAFE_LABELS)
+        labels = G.XML_INTL_LABELS if aseed % 2 else G.XML_SAFE_LABELS
+        ar, desc, items = G.build_archive(random.Random(aseed), ctx, labels=labels)
         orig_obs = observe_objs(items)
         ar._freeze(); tags = desc['tags']
-        info = {'archive': ai, 'ctx': ctx, 'archive_seed': aseed, 'format': 'xml', 'tags': tags}
+        info = {'archive': ai, 'ctx': ctx, 'archive_seed': aseed, 'format': 'xml', 'tags': tags, 'labels': 'intl' if aseed % 2 else 'safe'}
+        dist['xml_nonascii_labels'] = dist.get('xml_nonascii_labels', 0) + sum(
+            1 for ln in ar._leaf_nodes.values() if ln.label and any(ord(c) > 127 for c in ln.label))
         dist['xml_archives'] += 1
         dist['xml_finite_dof_above_1e5'] += sum(1 for ln in ar._leaf_nodes.values() if 1e5 < ln.df < math.inf)
         f = io.BytesIO(); P.dump_xml(f, ar); base_out = f.getvalue()
@@ -417,7 +483,7 @@ def xml_correspondence(rng, tier, dist, samples):
         # the same Archive object written in several formats in sequence, both orders (twins from the same seed)
         refs = {}
         for order in SEQUENCES:
-            tw, tdesc, titems = G.build_archive(random.Random(aseed), ctx, labels=G.XML_SAFE_LABELS)
+            tw, tdesc, titems = G.build_archive(random.Random(aseed), ctx, labels=labels)
             dist['sequences'] += 1; steps += len(order)
             r = write_sequence(tw, tags, order, orig_obs, 700 + ai, refs)
             if r is not None and not is_known(dict(info, format='sequence', **r)):
@@ -576,7 +642,7 @@ def check_archive(rng_state_seed, ctx, fmt, o):
     validator, read back, compare with the content of the objects that were archived"""
     from GTC import persistence as P
     V = validators()
-    labels = G.LABELS if fmt == 'json' else G.XML_SAFE_LABELS
+    labels = G.LABELS if fmt == 'json' else (G.XML_INTL_LABELS if rng_state_seed % 2 else G.XML_SAFE_LABELS)
     ar, desc, items = G.build_archive(random.Random(rng_state_seed), ctx, labels=labels)
     orig_obs = observe_objs(items)
     tags = desc['tags']
@@ -592,6 +658,8 @@ def check_archive(rng_state_seed, ctx, fmt, o):
         if isinstance(obs, str) or obs != orig_obs:
             return {'why': 'reload', 'outcome': str(obs)[:200]}
         return None
+    if fmt == 'reserved':
+        return check_reserved(o['kind'])[0]
     if fmt == 'sequence':
         return write_sequence(ar, tags, o['order'], orig_obs, 902, {})
     if fmt == 'prefix':
@@ -608,7 +676,8 @@ def search(rng, tier, broken):
     for i in range(n):
         seed = rng.getrandbits(48); ctx = rng.choice([7, rng.getrandbits(100) + 1])
         pgrid = [{'prefix': q, 'expect': e} for e, l in (('accept', G.GOOD_PREFIXES), ('refuse', G.BAD_PREFIXES), ('either', G.RESERVED_PREFIXES)) for q in l]
-        for fmt, grid in (('json', G.JSON_GRID), ('xml', G.XML_GRID), ('sequence', [{'order': q} for q in SEQUENCES]), ('prefix', pgrid)):
+        for fmt, grid in (('json', G.JSON_GRID), ('xml', G.XML_GRID), ('sequence', [{'order': q} for q in SEQUENCES]), ('prefix', pgrid),
+                          ('reserved', [{'kind': q} for q in ('real', 'complex', 'interm')])):
             for o in rng.sample(grid, min(6, len(grid))):
                 f = {'format': fmt, 'archive_seed': seed, 'ctx': ctx, 'options': o}
                 if is_known(f): continue
